@@ -3,6 +3,9 @@
 using namespace nix;
 using namespace vh;
 
+#ifndef VH_STRBYTES
+#define VH_STRBYTES 2
+#endif
 #ifndef VH_STEPS
 #define VH_STEPS 2
 #endif
@@ -22,7 +25,7 @@ static Variant sym_value(uint32_t t) {
     case 3: return Variant((int64_t)nixsym_i64("vi64"));
     case 4: return Variant((uint64_t)nixsym_u64("vu64"));
     case 5: return Variant(nixsym_f64("vf64"));
-    default: return Variant(sym_name("vs", 2, "ab\xc3"));      // empty, 1 or 2 bytes incl. a UTF-8 lead byte
+    default: return Variant(sym_name("vs", VH_STRBYTES, "ab\xc3"));      // empty, 1 or 2 bytes incl. a UTF-8 lead byte (3-step histories: at most 1 byte)
     }
 }
 static bool same_variant(const Variant &a, const Variant &b) {
